@@ -25,6 +25,16 @@ them (shared/lookup.dat:copy), optionally next to a component of the same name: 
 discovered by Manifest.fromDirectory on the instance directory and the references must still be read as references to
 folders (references, edges and the reload itself are compared).
 
+Also generated (third round): stores that happen AFTER the experiment was built.  conf/flowir_instance.yaml is written while
+the configuration is initialised (before replicate()) and written AGAIN later in the life of an experiment: after every
+DoWhile iteration, and on request (FlowIRExperimentConfiguration.store_unreplicated_flowir_to_disk(), what elaunch calls after
+it extracted the interface).  Every case now draws `post` (0/1/2 explicit stores on the built experiment before the reload) and
+`restore` (every RELOADED experiment stores on request too, once built, before the directory is read again), and the DoWhile
+packages draw `rep` (replicated + aggregating components outside the loop and / or inside the DoWhile document), so that the
+description stored after an iteration belongs to an experiment whose replicated flavour differs from the primitive one.  The
+description after the explicit stores must be the one that was there before them (for a package without loops: the one written
+at creation), it is the one compared with the model, and the reloads read it.
+
 The configuration generator builds on harness/c04.py (same layer slots / clash patterns: an option or a variable
 defined independently on default/platform/foreign-platform global+stage blueprints, component, per-platform overrides,
 two user variable files) but draws schema-valid values, because a package must pass validation to be instantiated."""
@@ -53,6 +63,9 @@ ASSUMPTIONS = [
     'direct references into manifest (:link / :copy) top-level folders: the model stores references verbatim; that they are '
     'still read as references to folders after the reload is checked on the implementation only (references, edges, reload)',
     'DoWhile instances (loop iterations before the reload) are covered by the predicate on the implementation only',
+    'stores after the experiment was built (on request, after a loop iteration, by a reloaded experiment): the model has no notion '
+    'of time - flatten is a function of the package - so the description compared with the model is the LAST one the live '
+    'experiment stored before the reload, and that later stores leave the description alone is checked on the implementation',
     'output / status-report / virtual-environments / application-dependencies / interface sections are left empty by the '
     'generator and not modelled',
 ]
@@ -266,8 +279,17 @@ def gen_conf_case(rng, dens=None):
         del doc['blueprint']
     doc['environments'] = gen_envs(rng)
     case = {'kind': 'conf', 'platform': platform, 'doc': doc, 'files': files, 'inj': inj, 'replicate': replicate}
+    draw_later_stores(rng, case)
     if folders:
         case['folders'] = folders
+    return case
+
+
+def draw_later_stores(rng, case):
+    """stores after the experiment was built: `post` explicit stores before the reload, `restore` = the reloaded experiments
+    store on request as well (40% of the cases keep the plain create / reload / reload sequence)"""
+    case['post'] = rng.choice([0, 0, 1, 1, 2])
+    case['restore'] = rng.random() < 0.35
     return case
 
 
@@ -415,6 +437,17 @@ def predicate(ctx, case, obs):
     if case.get('folders') and live.get('folders') != sorted(case['folders']):
         ctx.fail(dict(rep, known=live.get('folders')),
                  'a top-level folder that the manifest of the package declares is not known to the experiment', [])
+    # a store on request by the BUILT experiment writes the description that was there (creation / last iteration)
+    d = first_diff(obs['stored_before_post'], obs['stored'], 'flowir_instance')
+    if d:
+        ctx.fail(dict(rep, difference=d),
+                 'an explicit store_unreplicated_flowir_to_disk() by the experiment, after it was built, changed the description '
+                 'in conf/flowir_instance.yaml (%d stores)' % (case.get('post') or 0), [])
+    if case['kind'] == 'conf' or case['k'] == 0:
+        d = first_diff(obs['stored_at_creation'], obs['stored_before_post'], 'flowir_instance')
+        if d:
+            ctx.fail(dict(rep, difference=d), 'conf/flowir_instance.yaml changed between the creation of the instance and the '
+                                              'first store on request although nothing happened in between', [])
     # store . load . store = store: the stored description (the YAML document; the order of the keys inside a mapping is
     # not part of it - override_object iterates a set) is unchanged by every load/store cycle
     for i, again in enumerate(obs['stored_again']):
@@ -515,6 +548,18 @@ def explore(ctx, cases, parallel=True):
                 ctx.count('component_named_like_a_folder=%s' % bool(names & set(case['folders'])))
         else:
             ctx.count('loop_iterations=%d' % case['k'])
+            r = case.get('rep') or {}
+            ctx.count('loop_replicated_components=outside:%d,inside:%d' % (r.get('outside', 0), r.get('inside', 0)))
+        ctx.count('explicit_stores_after_build=%d' % (case.get('post') or 0))
+        ctx.count('reloaded_experiment_stores_on_request=%s' % bool(case.get('restore')))
+        replicated = bool(case.get('replicate') or case.get('rep'))
+        if replicated and (case.get('post') or case.get('restore') or (case['kind'] == 'loop' and case['k'] >= 1)):
+            ctx.count('replicated_package_stored_after_build')
+        if 'error' in obs and obs['error'].startswith('store:'):
+            ctx.case(case, True)
+            ctx.fail({'case': case, 'error': obs['error'], 'msg': obs.get('msg')},
+                     'the built experiment could not store its description on request (%s)' % obs['error'], [])
+            continue
         if 'error' in obs:
             if obs['error'].startswith('driver:'):
                 raise RuntimeError('C07 driver failed: %s %s' % (obs['error'], obs.get('msg')))
@@ -566,7 +611,14 @@ def gen_loop_case(rng, k):
         c = c05.gen_case(rng, k)
         if c05.args_conflict(c) or c05.duplicate_refs(c):
             continue
-        return {'kind': 'loop', 'c05': c, 'k': k}
+        case = {'kind': 'loop', 'c05': c, 'k': k}
+        if rng.random() < 0.7:
+            # replicated components next to / inside the loop (both 0: drawn again)
+            rep = {'outside': rng.choice([0, 2, 3]), 'inside': rng.choice([0, 1, 2])}
+            if not (rep['outside'] or rep['inside']):
+                rep[rng.choice(['outside', 'inside'])] = 2
+            case['rep'] = rep
+        return draw_later_stores(rng, case)
 
 
 def run(ctx):
@@ -578,8 +630,10 @@ def run(ctx):
                 'variables holding %(replica)s next to another reference that the component often shadows (all consumers replicated), 20% '
                 'as one FlowIR file + manifest with :link / :copy top-level folders and direct references into them (40% of those next to a '
                 'component named like a folder), 6% with a repeatInterval in a blueprint / override layer; plus DoWhile packages of the C05 '
-                'generator with k = 0..3 (quick) further iterations stored before the reload; every case: create the '
-                'instance, reload twice; non-trivial = selected platform is not default and >= 2 options/variables are '
+                'generator with k = 0..3 (quick) further iterations stored before the reload, 70% of them with replicated + aggregating '
+                'components added outside the loop (xrep x2/x3, xagg) and / or inside the DoWhile document (zrep x1/x2, zagg); every case: '
+                'create the instance, 0/1/2 (weights 2:2:1) explicit stores on request by the built experiment, reload twice, in 35% of '
+                'the cases every reloaded experiment stores on request as well before the directory is read again; non-trivial = selected platform is not default and >= 2 options/variables are '
                 'defined by >= 2 layers of that platform, or a loop with >= 1 further iteration; distinct by the case')
     rng = ctx.rng
     n_conf = 150 if ctx.tier == 'quick' else 1500
